@@ -5,3 +5,4 @@ pub mod codec;
 pub mod c09;
 pub mod c13;
 pub mod c18;
+pub mod c05;
